@@ -33,7 +33,7 @@ theorem c02v_qsWF_of_levelWF {l : Level} (hl : l.WF) : c02v_QsWF l :=
 def c02v_cfOk (l : Level) (f : Nat) : Prop :=
   match l.scheme with
   | .bfv | .ckks => f = 1
-  | .bgv => f ≠ 0 ∧ f ≤ l.t.value
+  | .bgv => f ≠ 0 ∧ f < l.t.value
 
 /-- the polynomial part of canonicity: 2 ≤ size ≤ 16 and every polynomial canonical at level `l` -/
 structure c02v_PolysCanon (l : Level) (ct : Ct) : Prop where
@@ -1221,7 +1221,7 @@ theorem bgvMultiply_canon {l : Level} (hq : c02v_QsWF l) (ht : l.t.WF) {a b : Ct
   rw [hs]
   simp only
   have h2 := ht.two_le
-  refine ⟨fun h0 => ?_, (Nat.mod_lt _ (by omega)).le⟩
+  refine ⟨fun h0 => ?_, Nat.mod_lt _ (by omega)⟩
   rw [h0, Nat.Coprime, Nat.gcd_zero_left] at hcop
   omega
 
@@ -1269,7 +1269,7 @@ theorem ctTranslateBalanced_spec {l : Level} (hq : c02v_QsWF l) (ht : l.t.WF) {a
     rw [hs, fr, fa]
     simp only
     have h2t := ht.two_le
-    refine ⟨fun h0 => ?_, s3.le⟩
+    refine ⟨fun h0 => ?_, s3⟩
     rw [h0, Nat.Coprime, Nat.gcd_zero_left] at hcf
     omega
   · intro k hk i hi j hj
@@ -1397,16 +1397,29 @@ theorem bgvDecode_balanced_poly {t f1 f2 f e1 e2 : Nat} (ht : 2 ≤ t) (ht199 : 
   rw [hm f ph hj, hm f1 ph1 (by omega), hm f2 ph2 (by omega)]
   exact bgvDecode_balanced ht ht199 c1 c2 cf he1 he2 sub (hx j hj)
 
-/-- REMARK (validity predicate, not the arithmetic): `ctValid` / `c02v_cfOk` accept a BGV correction factor equal to t, which
-    is not a unit; the product of such a ciphertext has correction factor 0, which the same predicate rejects — canonicity is
-    preserved by `bgvMultiply` only for unit factors (`bgvMultiply_canon`).  Witness at the example level (t = 5). -/
+/-- the example level with the COMPOSITE plain modulus t = 4 (same N = 2, q = 17·17) -/
+def c02v_exT4 : Modulus := ⟨4, (2^128 / 4) % B64, (2^128 / 4) / B64, 2^128 % 4, bitCount 4⟩
+def c02v_exLevel4 : Level := { c02v_exLevel with t := c02v_exT4 }
+
+theorem c02v_exT4_wf : c02v_exLevel4.t.WF := (Modulus.mk?_wf (v := 4) (m := c02v_exT4) rfl (by decide)).1
+
+theorem c02v_exLevel4_qsWF : c02v_QsWF c02v_exLevel4 := c02v_exLevel_qsWF
+
+/-- `c02v_exCt2` (correction factor 2, a NON-UNIT modulo 4 in the accepted range [1, t − 1]) is canonical at the composite level -/
+theorem c02v_exCt2_canon4 : CtCanon c02v_exLevel4 c02v_exCt2 :=
+  ⟨⟨c02v_exCt2_canon.two_le, c02v_exCt2_canon.le16, c02v_exCt2_canon.canon⟩, by decide, by decide⟩
+
+/-- REMARK (validity predicate, not the arithmetic): `ctValid` / `c02v_cfOk` accept exactly the BGV correction factors 1 ≤ cf ≤ t − 1
+    (the factor t itself is rejected since the repair of `is_metadata_valid_for`).  For a COMPOSITE plain modulus that range still
+    contains non-units; the product of two such ciphertexts can have correction factor 0, which the same predicate rejects —
+    canonicity is preserved by `bgvMultiply` for unit factors (`bgvMultiply_canon`), hence for every factor in range when t is prime.
+    Witness at the composite example level (t = 4, cf = 2, 2·2 ≡ 0). -/
 theorem c02v_bgvMultiply_cf_zero_witness :
-    ∃ a r, CtCanon c02v_exLevel a ∧ bgvMultiply c02v_exLevel a c02v_exCt2 = .ok r ∧ r.cf = 0 := by
-  have ha : CtCanon c02v_exLevel { c02v_exCt2 with cf := 5 } :=
-    ⟨⟨c02v_exCt2_canon.two_le, c02v_exCt2_canon.le16, c02v_exCt2_canon.canon⟩, by decide, by decide⟩
-  obtain ⟨c, hc, _⟩ := ctMultiplyDyadic_spec c02v_exLevel_qsWF ha c02v_exCt2_canon rfl rfl
-  refine ⟨_, _, ha, bgvMultiply_spec c02v_exT_wf hc (by decide) (by decide), ?_⟩
-  show (5 * 2) % 5 = 0
+    ∃ a r, CtCanon c02v_exLevel4 a ∧ bgvMultiply c02v_exLevel4 a c02v_exCt2 = .ok r ∧ r.cf = 0 := by
+  have ha : CtCanon c02v_exLevel4 c02v_exCt2 := c02v_exCt2_canon4
+  obtain ⟨c, hc, _⟩ := ctMultiplyDyadic_spec c02v_exLevel4_qsWF ha ha rfl rfl
+  refine ⟨_, _, ha, bgvMultiply_spec c02v_exT4_wf hc (by decide) (by decide), ?_⟩
+  show (2 * 2) % 4 = 0
   rfl
 
 /-! ### hypotheses are satisfiable / specialisations -/
